@@ -14,7 +14,8 @@ CONSTANT SnapshotBeforeRun
 Modes == {"workspace", "workspace_ppl", "single"}     \* workspace_ppl: the selected script has the .ppl extension
 \* line-protocol files: the input is the FIRST POINT of the file, not its first line: comment lines and blank lines before
 \* it are skipped, a quoted string field may contain a line break, later points are ignored
-Inputs == {"none", "text", "lineprotocol", "lp_comment_first", "lp_blank_first", "lp_newline_in_field"}
+\* text files: the WHOLE content becomes field `message` (several lines, surrounding blanks and a final line break included)
+Inputs == {"none", "text", "text_multiline", "lineprotocol", "lp_comment_first", "lp_blank_first", "lp_newline_in_field"}
 Outputs == {"json", "lineprotocol"}
 Kinds == {"noop", "addField", "toTag", "setMeas", "clearMeas", "setTime", "dropMsg", "useSibling", "loadErr", "runErr", "linkErr"}
 
@@ -36,6 +37,7 @@ Effect(k, p) == CASE k = "addField" -> [p EXCEPT !.added = TRUE]
 Init == /\ cfg \in [mode : Modes, input : Inputs, output : Outputs, kind : Kinds]
         /\ (cfg.kind \in {"useSibling", "linkErr"} => cfg.mode \in {"workspace", "workspace_ppl"})      \* a sibling needs a workspace
         /\ (cfg.kind = "clearMeas" => cfg.output = "json")                          \* line protocol cannot encode an empty name
+        /\ (cfg.kind = "toTag" /\ cfg.input = "text_multiline" => cfg.output = "json")  \* ... nor a line break inside a tag value
         /\ phase = "start" /\ pt = None /\ snap = None /\ out = None /\ err = "none"
 
 Select == /\ phase = "start"
